@@ -6,7 +6,7 @@ import sys
 
 sys.path.insert(0, os.path.dirname(os.path.dirname(os.path.abspath(__file__))))
 from verif_static.core import run_check, AnalysisError, REPO  # noqa
-from verif_static.norm import same, same_stmt  # noqa
+from verif_static.norm import same, same_stmt, local_defs, inline, canon  # noqa
 from verif_static import model as M, cfg as C  # noqa
 
 IOM = 'pysph/sph/bc/inlet_outlet_manager.py'
@@ -308,6 +308,25 @@ def rule_families(chk, ci):
 PA = 'pysph/base/particle_array.pyx'
 
 
+def rule_zone_length(chk):
+    """the length an inlet original is recycled by / beyond which an outlet particle is deleted is the extent of the zone along its normal: the bounding box of the zone's
+    particles widened by half a spacing on each side, projected on the normal - a quantity that does not depend on where the particles currently are relative to the interface"""
+    t = M.py(IOM)
+    mgr = M.find_class(t, 'InletOutletManager')
+    fn = M.find_func(mgr, '_update_inlet_outlet_info')
+    st = [a for a in ast.walk(fn) if isinstance(a, ast.Assign) and compact(a.targets[0]) == 'info.length']
+    ok = len(st) == 1
+    if ok:
+        blk = M.enclosing(st[0], (ast.If, ast.For))
+        defs = local_defs(fn.body)
+        got = inline(st[0].value, defs)
+        want = 'abs((max(pa.x)-min(pa.x)+info.dx)*info.normal[0] + (max(pa.y)-min(pa.y)+info.dx)*info.normal[1] + (max(pa.z)-min(pa.z)+info.dx)*info.normal[2])'
+        ok = canon(got) == canon(want)
+    chk.decide(ok, 'zone-codes', 'zone-length-is-the-extent-along-the-normal', node=st[0] if st else fn, file=IOM, func='InletOutletManager._update_inlet_outlet_info',
+               detail_bad='info.length is not |sum_k (max(x_k) - min(x_k) + dx) n_k|: a length measured from the interface (or from anything the particles move relative to) changes with their '
+                          'current offset, so originals are recycled the wrong distance and outlet particles deleted at the wrong place after a restart', detail_ok='|extent . normal| with extent = bounding box + dx')
+
+
 def rule_alignment(chk):
     """remove_particles / extract + align_particles must not duplicate or lose a particle: align_particles builds its index array by
     insert-with-displacement, which keeps index[0..i] a permutation of 0..i iff on every path through the loop body position i is filled
@@ -405,6 +424,7 @@ def main(chk):
     rule_zone_codes(chk)
     rule_families(chk, ci)
     rule_alignment(chk)
+    rule_zone_length(chk)
     chk.assume('exactly-once over arbitrary runs and velocity fields (particles crossing and returning within a step) is not decided')
     chk.assume('ParticleArray.extract_particles / remove_particles copy and delete whole particles (C06)')
 
